@@ -29,17 +29,17 @@ import (
 // gRPC servers (real interceptor chain including panic recovery) over
 // grpc/test/bufconn. No sockets.
 type Sys struct {
-	Env                     *Env
-	ReadH, WriteH, OPLH     http.Handler
-	Check                   rts.CheckServiceClient
-	Expand                  rts.ExpandServiceClient
-	ReadC                   rts.ReadServiceClient
-	WriteC                  rts.WriteServiceClient
-	NSC                     rts.NamespacesServiceClient
-	Syntax                  opl.SyntaxServiceClient
-	servers                 []*grpc.Server
-	Net                     string // tenant (network id) the next requests are issued for ("": the registry's own)
-	conns                   []*grpc.ClientConn
+	Env                 *Env
+	ReadH, WriteH, OPLH http.Handler
+	Check               rts.CheckServiceClient
+	Expand              rts.ExpandServiceClient
+	ReadC               rts.ReadServiceClient
+	WriteC              rts.WriteServiceClient
+	NSC                 rts.NamespacesServiceClient
+	Syntax              opl.SyntaxServiceClient
+	servers             []*grpc.Server
+	Net                 string // tenant (network id) the next requests are issued for ("": the registry's own)
+	conns               []*grpc.ClientConn
 }
 
 func NewSys(env *Env) *Sys {
